@@ -10,6 +10,7 @@ package c02
 
 import (
 	"bytes"
+	"encoding/hex"
 	"errors"
 	"fmt"
 	"io"
@@ -497,6 +498,7 @@ func Execute(cfg Config, prog []Op, seed int64) (run Run, err error) {
 	var stmRef [2]int
 	var stmID string
 	var stmBody []byte
+	preHex := false                // the open stream's data is written ASCIIHex-encoded by the program
 	remaining := func(i int) int { // bytes written until the stream is closed
 		n := 0
 		for _, o := range prog[i+1:] {
@@ -584,10 +586,17 @@ func Execute(cfg Config, prog []Op, seed int64) (run Run, err error) {
 				case "wrong":
 					d["Length"] = pdf.Integer(inFile + 1)
 				}
+				preHex = false
+				if op.Lg == "none" && strings.HasPrefix(cfg.Filter, "pre:") {
+					// the caller's dictionary already names a filter: the program
+					// writes data encoded that way, the Writer adds its own filters
+					d["Filter"] = pdf.Name("ASCIIHexDecode")
+					preHex = true
+				}
 				before := snapshot(d)
 				var filters []pdf.Filter
 				if op.Lg == "none" {
-					filters = filterFor(cfg.Filter)
+					filters = filterFor(strings.TrimPrefix(cfg.Filter, "pre:"))
 				}
 				stm, cerr = w.OpenStream(pdf.NewReference(uint32(op.N), uint16(op.G)), d, filters...)
 				op.ArgsOK = snapshot(d) == before
@@ -628,10 +637,18 @@ func Execute(cfg Config, prog []Op, seed int64) (run Run, err error) {
 			case "StreamWrite":
 				data := chunk(r, 512*op.K+op.Pad)
 				keep := append([]byte(nil), data...)
-				_, cerr = stm.Write(data)
+				if preHex {
+					enc := []byte(hex.EncodeToString(data))
+					_, cerr = stm.Write(enc)
+				} else {
+					_, cerr = stm.Write(data)
+				}
 				op.ArgsOK = bytes.Equal(data, keep)
 				stmBody = append(stmBody, keep...)
 			case "CloseStream":
+				if preHex {
+					stm.Write([]byte(">"))
+				}
 				cerr = stm.Close()
 				if cerr == nil {
 					run.Written[stmRef] = Written{ID: stmID, Value: sdict[stmID], Stream: true, Body: stmBody}
